@@ -52,7 +52,36 @@ def norm_item(interned, it):
     return ("?", conn.short(it)[:120])
 
 
+def self_place(t):
+    """'self.a.b.0' for a term that denotes a part of `self` however it was reached: a location path (downcasts dropped),
+    the entry value of one, a payload / field projection of such a term, or a full-range slice of it.  None otherwise."""
+    if not isinstance(t, tuple) or not t:
+        return None
+    if t[0] == "sym":
+        return self_place(t[1])
+    if t[0] == "loc" or t[0] == "ref":
+        root, path = t[1], t[2]
+        els = [conn.pel(x) for x in path if x[0] != "dc"]
+        if root == ("self",):
+            return ".".join(["self"] + els)
+        if root and root[0] == "D":
+            b = self_place(root[1])
+            return ".".join([b] + els) if b else None
+        return None
+    if t[0] == "init" and t[1] == ("self",):
+        return ".".join(["self"] + [conn.pel(x) for x in t[2] if x[0] != "dc"])
+    if t[0] == "field" and isinstance(t[2], int):
+        b = self_place(t[1])
+        return "%s.%d" % (b, t[2]) if b else None
+    if t[0] == "call" and len(t[2]) == 2 and t[1].endswith("::index") and "RangeFull" in repr(t[2][1])[:90]:
+        return self_place(t[2][0])
+    return None
+
+
 def norm_src(s):
+    sp = self_place(s)
+    if sp is not None and sp.count(".") >= 2:
+        return sp          # a projection below a field of self: one spelling for `x.Some.0`, `field(x, 0)`, `field(x, 0)[..]`
     if isinstance(s, tuple) and s and s[0] == "loc":
         root, path = s[1], s[2]
         if root == ("self",):
